@@ -24,6 +24,10 @@ pub const POSITIONS: &[&str] = &[
     "position fen 8/5pk1/6p1/R7/5P2/6P1/r4K2/8 w - - 0 40",
     "position fen 8/8/8/4k3/8/4K3/4P3/8 w - - 0 1",
 ];
+/// A game in which the history decides the answer: perpetual check, the only legal reply brings a
+/// position about for the third time (score 0; 149 if the history is lost on the way to the search)
+pub const PERPETUAL: &str = "position fen 6k1/RR6/8/8/7q/8/6P1/6K1 b - - 0 1 moves h4e1 g1h2 e1h4 h2g1 h4e1 g1h2 e1h4";
+pub const PERPETUAL_DEPTHS: &[u8] = &[1, 3];
 pub const DEPTHS: &[u8] = &[1, 2, 3, 4];
 pub const HORIZON_S: u64 = 300;
 
@@ -34,15 +38,85 @@ pub const DEEP: &[(&str, u8)] = &[
     ("position fen 8/5pk1/6p1/R7/5P2/6P1/r4K2/8 w - - 0 40", 9),
     ("position fen r3k2r/p1ppqpb1/bn2pnp1/3PN3/1p2P3/2N2Q1p/PPPBBPPP/R3K2R w KQkq - 0 1", 4),
 ];
+/// The same games two plies later (searched one ply shallower, in the same process, after the deep
+/// search): the second search runs on a table that already holds the 10^5..10^6 entries of the
+/// first, so anything done to a full table (trimming, ageing, eviction, resizing) shows here. A
+/// second search of the *same* position would not do: it is answered from the root entry.
+pub const DEEP_NEXT: &[&str] = &[
+    "position startpos moves e2e4 e7e5",
+    "position fen r1bq1rk1/ppp2ppp/2np1n2/2b1p3/2B1P3/2PP1N2/PP3PPP/RNBQ1RK1 w - - 0 7 moves c1g5 h7h6",
+    "position fen 8/5pk1/6p1/R7/5P2/6P1/r4K2/8 w - - 0 40 moves f2f3 a2a3",
+    "position fen r3k2r/p1ppqpb1/bn2pnp1/3PN3/1p2P3/2N2Q1p/PPPBBPPP/R3K2R w KQkq - 0 1 moves e1g1 e8g8",
+];
+
+/// Unit 0 is a bare `ucinewgame`: nothing, not even an `isready`, stands between it and the
+/// `position` that follows (an engine that postpones the reset to its next `isready` or `go` must
+/// not lose what the `position` command told it). The last unit is `ucinewgame ; isready`, the way
+/// most GUIs send it. Every unit with a `go` ends with an `isready` that frames its output.
+/// Games: one process plays through a game, searching every second position at a fixed depth with
+/// no ucinewgame in between, so each search starts on the table all earlier ones left (quick depth,
+/// start, move list searched after 0, 2, 4, ... plies; thorough = depth + 1).
+pub const GAMES: &[(u8, &str, &[&str])] = &[
+    (6, "position startpos", &["e2e4", "e7e5", "g1f3", "b8c6", "f1c4", "f8c5", "c2c3", "g8f6"]),
+    (4, "position fen r1bq1rk1/ppp2ppp/2np1n2/2b1p3/2B1P3/2PP1N2/PP3PPP/RNBQ1RK1 w - - 0 7", &["c1g5", "h7h6", "g5h4", "g7g5", "h4g3", "c8g4"]),
+];
+
+/// Units and histories of the deep part: for each deep search X and its follow-up Y (the same game
+/// two plies later, one ply shallower): [X], [X, X], [X, ucinewgame, X], [X, Y].
+pub fn deep_setup(thorough: bool) -> (Vec<Vec<String>>, Vec<Vec<usize>>, Vec<Vec<String>>) {
+    let mut dus = units();
+    let base = dus.len();
+    let mut deep_units: Vec<Vec<String>> = Vec::new();
+    for (p, d) in DEEP {
+        deep_units.push(vec![p.to_string(), format!("go depth {}", if thorough { d + 1 } else { *d }), "isready".to_string()]);
+    }
+    for (i, p) in DEEP_NEXT.iter().enumerate() {
+        let d = DEEP[i].1;
+        deep_units.push(vec![p.to_string(), format!("go depth {}", if thorough { d } else { d - 1 }), "isready".to_string()]);
+    }
+    dus.extend(deep_units.iter().cloned());
+    let n = DEEP.len();
+    let mut dhs: Vec<Vec<usize>> = Vec::new();
+    for i in 0..n {
+        dhs.push(vec![base + i]);
+        dhs.push(vec![base + i, base + i]);
+        dhs.push(vec![base + i, 0, base + i]);
+        dhs.push(vec![base + i, base + n + i]);
+    }
+    for (d, start, moves) in GAMES {
+        let mut h = Vec::new();
+        for k in (0..=moves.len()).step_by(2) {
+            let pos = if k == 0 { start.to_string() } else { format!("{} moves {}", start, moves[..k].join(" ")) };
+            deep_units.push(vec![pos, format!("go depth {}", if thorough { d + 1 } else { *d }), "isready".to_string()]);
+            h.push(base + deep_units.len() - 1);
+        }
+        dhs.push(h);
+    }
+    dus.truncate(base);
+    dus.extend(deep_units.iter().cloned());
+    (dus, dhs, deep_units)
+}
 
 pub fn units() -> Vec<Vec<String>> {
-    let mut u = vec![vec!["ucinewgame".to_string()], vec!["go depth 2".to_string()]];
+    let mut u = vec![vec!["ucinewgame".to_string()], vec!["go depth 2".to_string(), "isready".to_string()]];
     for p in POSITIONS {
         for d in DEPTHS {
-            u.push(vec![p.to_string(), format!("go depth {}", d)]);
+            u.push(vec![p.to_string(), format!("go depth {}", d), "isready".to_string()]);
         }
     }
+    for d in PERPETUAL_DEPTHS {
+        u.push(vec![PERPETUAL.to_string(), format!("go depth {}", d), "isready".to_string()]);
+    }
+    u.push(vec!["ucinewgame".to_string(), "isready".to_string()]);
     u
+}
+
+fn is_newgame(u: &[String]) -> bool {
+    u[0] == "ucinewgame"
+}
+
+fn framed(u: &[String]) -> bool {
+    u.last().map(|c| c == "isready").unwrap_or(false)
 }
 
 fn wire(hist: &[usize], units: &[Vec<String>]) -> Vec<u8> {
@@ -52,7 +126,6 @@ fn wire(hist: &[usize], units: &[Vec<String>]) -> Vec<u8> {
             s.push_str(c);
             s.push('\n');
         }
-        s.push_str("isready\n");
     }
     s.into_bytes()
 }
@@ -83,10 +156,14 @@ fn run_once(exe: &str, hist: &[usize], units: &[Vec<String>], zseed: Option<u64>
         }
     }
     let tail = segs.pop().unwrap();
-    if !tail.is_empty() || segs.len() != hist.len() {
-        return Err(format!("{} readyok-delimited blocks for {} units (tail {:?})", segs.len(), hist.len(), tail));
+    let n_framed = hist.iter().filter(|u| framed(&units[**u])).count();
+    if !tail.is_empty() || segs.len() != n_framed {
+        return Err(format!("{} readyok-delimited blocks for {} framed units (tail {:?})", segs.len(), n_framed, tail));
     }
-    Ok(segs)
+    // one output block per unit; an unframed unit (bare ucinewgame) prints nothing of its own: if it
+    // did, that text would open the next unit's block and show as a difference there
+    let mut it = segs.into_iter();
+    Ok(hist.iter().map(|u| if framed(&units[*u]) { it.next().unwrap() } else { vec![] }).collect())
 }
 
 fn all_histories(n_units: usize, l: usize) -> Vec<Vec<usize>> {
@@ -197,7 +274,7 @@ pub fn run(tier: &str, seed: u64, out: &str, exe: &str) {
         };
         outs.insert(r.clone());
         for (j, u) in h.iter().enumerate() {
-            if *u != 0 || j + 1 >= h.len() {
+            if !is_newgame(&us[*u]) || j + 1 >= h.len() {
                 continue;
             }
             let beta: Vec<usize> = h[j + 1..].to_vec();
@@ -228,19 +305,10 @@ pub fn run(tier: &str, seed: u64, out: &str, exe: &str) {
 
     // ---- (c) deep searches: a few searches large enough to fill the table with 10^5..10^6
     // entries (where a bounded or truncated-index table starts to collide), each under more key sets
-    let deep_units: Vec<Vec<String>> = DEEP.iter().map(|(p, d)| vec![p.to_string(), format!("go depth {}", if thorough { d + 1 } else { *d })]).collect();
+    let (dus, dhs, deep_units) = deep_setup(thorough);
     let deep_seeds = seeds(seed ^ 0xDEE9, if thorough { 8 } else { 5 });
     let mut deep_runs = 0u64;
     if !rep.saturated() {
-        let mut dus = us.clone();
-        let base = dus.len();
-        dus.extend(deep_units.iter().cloned());
-        let mut dhs: Vec<Vec<usize>> = Vec::new();
-        for i in 0..deep_units.len() {
-            dhs.push(vec![base + i]);
-            dhs.push(vec![base + i, base + i]);
-            dhs.push(vec![base + i, 0, base + i]);
-        }
         let jobs: Vec<(usize, usize)> = (0..dhs.len()).flat_map(|h| (0..deep_seeds.len()).map(move |z| (h, z))).collect();
         let outs: Vec<Result<Vec<Vec<String>>, String>> = par_map(&jobs, |&(h, z)| run_once(exe, &dhs[h], &dus, deep_seeds[z]));
         deep_runs = jobs.len() as u64;
@@ -303,7 +371,7 @@ pub fn run(tier: &str, seed: u64, out: &str, exe: &str) {
         .set("key_set_seeds", sd.iter().map(|s| s.map(|x| x.to_string()).unwrap_or("unseeded (thread_rng)".into())).collect::<Vec<_>>())
         .set("process_runs", n)
         .set("ucinewgame_suffix_joins", joins)
-        .set("deep_searches", J::obj().set("units", deep_units.iter().map(|u| u.join(" ; ")).collect::<Vec<_>>()).set("histories", "[X], [X, X], [X, ucinewgame, X] for each unit X").set("key_sets_per_history", deep_seeds.len()).set("process_runs", deep_runs))
+        .set("deep_searches", J::obj().set("units", deep_units.iter().map(|u| u.join(" ; ")).collect::<Vec<_>>()).set("histories", "[X], [X, X], [X, ucinewgame, X], [X, Y] for each deep search X and its follow-up Y (same game two plies later, one ply shallower, searched on the table X left); plus two games played through in one process (every second position searched at a fixed depth, no ucinewgame in between)").set("key_sets_per_history", deep_seeds.len()).set("process_runs", deep_runs))
         .set("samples", vec![J::Str(text(sample_h, &us)), J::Str(text(&hs[hs.len() / 2], &us))])
         .set("exhaustive", true)
         .set("bound", "every history up to the listed number of units; key sets are instantiated, not enumerated");
@@ -344,7 +412,7 @@ pub fn replay(history: &str, k: usize, exe: &str, seed: u64) -> i32 {
     }
     let f = first.unwrap();
     for (j, u) in h.iter().enumerate() {
-        if *u == 0 && j + 1 < h.len() {
+        if is_newgame(&us[*u]) && j + 1 < h.len() {
             let beta = h[j + 1..].to_vec();
             if let Ok(alone) = run_once(exe, &beta, &us, sd[0]) {
                 if f[j + 1..] != alone[..] {
@@ -366,17 +434,8 @@ pub fn replay(history: &str, k: usize, exe: &str, seed: u64) -> i32 {
 /// and, for [X, ucinewgame, X], the last unit must print what [X] prints on a fresh process.
 pub fn replay_deep(index: usize, tier: &str, exe: &str, seed: u64) -> i32 {
     let thorough = tier == "thorough";
-    let us = units();
-    let deep_units: Vec<Vec<String>> = DEEP.iter().map(|(p, d)| vec![p.to_string(), format!("go depth {}", if thorough { d + 1 } else { *d })]).collect();
-    let mut dus = us.clone();
-    let base = dus.len();
-    dus.extend(deep_units.iter().cloned());
-    let i = index / 3;
-    let h: Vec<usize> = match index % 3 {
-        0 => vec![base + i],
-        1 => vec![base + i, base + i],
-        _ => vec![base + i, 0, base + i],
-    };
+    let (dus, dhs, _) = deep_setup(thorough);
+    let h: Vec<usize> = dhs[index].clone();
     let sd = seeds(seed ^ 0xDEE9, if thorough { 8 } else { 5 });
     let mut first: Option<Vec<Vec<String>>> = None;
     let mut bad = false;
